@@ -151,7 +151,7 @@ class Walker:
 _WALKER = []
 
 
-def lower(n, edges, kinds, guards, perm, dep_rev):
+def lower(n, edges, kinds, guards, perm, dep_rev, twice=False):
     from dagrt.codegen.dag_ast import create_ast_from_phase
     from dagrt.language import DAGCode, ExecutionPhase
     deps, clo = c04.closure_of(n, edges)
@@ -172,7 +172,11 @@ def lower(n, edges, kinds, guards, perm, dep_rev):
             return c04.OrderedDeps(list(reversed(roots)) if dep_rev else roots)
     ph = Phase(name="ph", next_phase="ph", statements=stored)
     dag = DAGCode({"ph": ph}, "ph")
-    return create_ast_from_phase(dag, "ph"), clo
+    tree = create_ast_from_phase(dag, "ph")
+    if twice:
+        # lowering must not consume or alter the phase: the same objects lowered again give the same tree
+        return tree, clo, create_ast_from_phase(dag, "ph")
+    return tree, clo
 
 
 def check_case(n, edges, kinds, guards, perms, acc=None):
@@ -181,9 +185,13 @@ def check_case(n, edges, kinds, guards, perms, acc=None):
     for pi, perm in enumerate(perms):
         # identity order: both set-iteration orders; other storage orders alternate between them
         for dep_rev in ((False, True) if pi == 0 else ((pi % 2 == 1),)):
+            again = None
             try:
                 with kernel.time_limit(120):
-                    tree, clo = lower(n, edges, kinds, guards, perm, dep_rev)
+                    if base is None:
+                        tree, clo, again = lower(n, edges, kinds, guards, perm, dep_rev, twice=True)
+                    else:
+                        tree, clo = lower(n, edges, kinds, guards, perm, dep_rev)
             except kernel.Budget:
                 return ("budget", "create_ast_from_phase did not terminate within 120 s", perm, dep_rev)
             except Exception as e:
@@ -194,6 +202,9 @@ def check_case(n, edges, kinds, guards, perms, acc=None):
                 acc.evaluations += 1
             if base is None:
                 base = ser
+                if again is not None and json.dumps(serialise(again)) != ser:
+                    return ("second-lowering", "lowering the same phase object a second time gives another tree: "
+                            "%s vs %s" % (ser[:300], json.dumps(serialise(again))[:300]), perm, dep_rev)
                 r = check_tree(n, kinds, guards, clo, tree, ser)
                 if r is not None:
                     return r + (perm, dep_rev)
